@@ -654,7 +654,7 @@ func c11Concurrent(ev *vlib.Evidence, driver string, s store.Store, idx int) {
 
 func TestC11(t *testing.T) {
 	ev := vlib.NewEvidence("C11", "exploration",
-		"concurrent: an observer's keep-alive racing the keep-alive of a stale reported peer (declared-invalid and still-tracked must disagree); ageing: tracked stamps recorded 105-110 s old are aged past the window by one shared 21 s real wait, with peers that check in themselves without being re-reported, re-reported peers, empty and unknown-only reports, and a second keep-alive afterwards, at store level and through signed vipnode_update sessions (invalid_peers/active_peers vs the model); store level: histories of one observer and 3-4 peers (SetNode with LastSeen ages {0,60,110,130,180,3600 s}, observer and peer keep-alives, unknown/duplicate/self ids) on both drivers vs the tracked-peer model; pool level: signed vipnode_update sessions (ids given directly or inside enode:// URIs) comparing InvalidPeers/ActivePeers/NodePeers with the model; non-trivial = at least one peer was declared invalid (store level: >=3 mutations); distinct = distinct histories")
+		"concurrent: an observer's keep-alive racing the keep-alive of a stale reported peer (declared-invalid and still-tracked must disagree); ageing: tracked stamps recorded 105-110 s old are aged past the window by one shared 21 s real wait, with peers that check in themselves without being re-reported, re-reported peers, empty and unknown-only reports, and a second keep-alive afterwards, at store level and through signed vipnode_update sessions (invalid_peers/active_peers vs the model); store level: histories of one observer and 3-4 peers (SetNode with LastSeen ages {0,60,110,130,180,3600 s}, observer and peer keep-alives, unknown/duplicate/self ids) on both drivers vs the tracked-peer model; pool level: signed vipnode_update sessions (ids given directly or inside enode:// URIs) comparing InvalidPeers/ActivePeers/NodePeers with the model; non-trivial = at least one peer was declared invalid (store level: >=3 mutations); distinct = distinct histories; (faults) a damaged peer record between two keep-alives on an on-disk store")
 	ev.Assume("the 120 s window is only approached to ±10 s; cases longer than 5 s wall are inconclusive")
 	ageDone := make(chan struct{})
 	go func() { c11Ageing(ev, vlib.Scale(150, 2000)); close(ageDone) }()
